@@ -7,6 +7,7 @@ import (
 	"os/user"
 	"path/filepath"
 	"strings"
+	"time"
 )
 
 // c17 kind longname_names (os-backed server, raw READDIR): the long name of a listed entry agrees with its structured attributes
@@ -134,6 +135,66 @@ func c17LongNameNames(c *Ctx) {
 		rs.Close()
 		if seen == 0 {
 			c.Diag("longname_names: no entry of the test directory was listed")
+		}
+	}
+}
+
+// c17 kind fstat_handle: the attributes FSTAT reports are those of the OPEN file, whatever has happened to its name since: the
+// file is opened through the client, then renamed away (another file, with another size, mode and time, takes the name) or
+// removed; File.Stat through the still-open handle reports size, mode, modification time and owner of the file that was opened.
+func c17FstatFollowsHandle(c *Ctx) {
+	dir, err := os.MkdirTemp("", "vh-c17fh-")
+	if err != nil {
+		return
+	}
+	defer os.RemoveAll(dir)
+	for i, how := range []string{"renamed-away-and-replaced", "renamed-away", "removed", "replaced-by-rename-over"} {
+		for _, alloc := range []bool{false, true} {
+			name := filepath.Join(dir, fmt.Sprintf("f%d%v", i, alloc))
+			os.WriteFile(name, []byte("the original content"), 0o640)
+			os.Chtimes(name, time.Unix(1500000000, 0), time.Unix(1400000000, 0))
+			want, _ := os.Stat(name)
+			cn := c.Case("fstat_handle", kvs("how", how), kvb("alloc", alloc))
+			c.NT(cn)
+			c.Stat("fstat_handle_cases")
+			p, err := newPair(pairOpt{alloc: alloc})
+			if err != nil {
+				c.Oracle(cn, false, "harness: "+err.Error())
+				continue
+			}
+			f, err := p.Client.Open(name)
+			if err != nil {
+				p.Close()
+				c.Oracle(cn, false, "harness: open: "+err.Error())
+				continue
+			}
+			other := func(at string) {
+				os.WriteFile(at, []byte("x"), 0o600)
+				os.Chtimes(at, time.Unix(1600000000, 0), time.Unix(1600000001, 0))
+			}
+			switch how {
+			case "renamed-away-and-replaced":
+				os.Rename(name, name+".moved")
+				other(name)
+			case "renamed-away":
+				os.Rename(name, name+".moved")
+			case "removed":
+				os.Remove(name)
+			case "replaced-by-rename-over":
+				other(name + ".new")
+				os.Rename(name+".new", name)
+			}
+			fi, serr := f.Stat()
+			f.Close()
+			p.Close()
+			why := ""
+			switch {
+			case serr != nil:
+				why = fmt.Sprintf("fstat-by-name: File.Stat on an open handle whose file was %s failed: %v", how, serr)
+			case fi.Size() != want.Size() || fi.Mode() != want.Mode() || fi.ModTime().Unix() != want.ModTime().Unix():
+				why = fmt.Sprintf("fstat-by-name: the open file has size %d mode %v mtime %d; File.Stat after it was %s reports size %d mode %v mtime %d", want.Size(), want.Mode(), want.ModTime().Unix(), how, fi.Size(), fi.Mode(), fi.ModTime().Unix())
+			}
+			c.Oracle(cn, why == "", why)
 		}
 	}
 }
